@@ -148,7 +148,9 @@ type Part struct {
 func QueryPart(query string) Part {
 	return Part{Headers: [][2]string{{ContentType, Form}}, Content: []byte(query)}
 }
-func BodyPart(body []byte) Part { return Part{Headers: [][2]string{{ContentType, JSON}}, Content: body} }
+func BodyPart(body []byte) Part {
+	return Part{Headers: [][2]string{{ContentType, JSON}}, Content: body}
+}
 
 // Multipart writes an RFC 2046 multipart body: each part is "--" boundary CRLF headers CRLF CRLF content CRLF, closed by
 // "--" boundary "--" CRLF.
